@@ -86,8 +86,14 @@ Proof.
   replace (ln A * 2) with (ln A + ln A) by lra. rewrite exp_plus, !exp_ln; auto.
 Qed.
 
-Lemma effective_sample_size_spec l : l <> [] -> effective_sample_size l = ess_of (map exp l).
-Proof. intros H. unfold effective_sample_size. apply ess_expr_spec; auto. Qed.
+(* the expression both the helper and compute_weights evaluate on max-shifted log-weights *)
+Definition ess_expr (l : list R) : R := exp (logsumexp l * 2 - logsumexp (map (fun t => t * 2) l)).
+
+Lemma ess_expr_spec' l : l <> [] -> ess_expr l = ess_of (map exp l).
+Proof. intros H. unfold ess_expr. apply ess_expr_spec; auto. Qed.
+
+Lemma effective_sample_size_fn l : effective_sample_size l = ess_expr (map (fun t => t - vmax l) l).
+Proof. reflexivity. Qed.
 
 Lemma ess_of_bounds w : w <> [] -> Forall (fun t => 0 < t) w -> 1 <= ess_of w <= vlen w.
 Proof.
@@ -120,6 +126,19 @@ Qed.
 Lemma map_exp_shift c l : map exp (map (fun t => t - c) l) = map (fun t => t * exp (- c)) (map exp l).
 Proof. rewrite !map_map. apply map_ext. intros; unfold Rminus; now rewrite exp_plus. Qed.
 
+Lemma ess_expr_shift c l : l <> [] -> ess_expr (map (fun t => t - c) l) = ess_of (map exp l).
+Proof.
+  intros Hne. rewrite ess_expr_spec' by (destruct l; simpl; congruence).
+  rewrite map_exp_shift. apply ess_of_scale.
+  - pose proof (exp_pos (- c)); lra.
+  - assert (0 < vsum (map (fun t => t * t) (map exp l))); [| lra].
+    apply sum_sq_pos; [destruct l; simpl; congruence| apply map_exp_pos].
+Qed.
+
+(* utils.effective_sample_size (shifts by the maximum itself since repair F34) *)
+Lemma effective_sample_size_spec l : l <> [] -> effective_sample_size l = ess_of (map exp l).
+Proof. intros H. rewrite effective_sample_size_fn. now apply ess_expr_shift. Qed.
+
 (* ------------------------------------------------------------------ compute_weights *)
 Lemma cw_log_evidence_fn {X} (x : list X) ll lp lq :
   compute_weights_log_evidence x ll lp lq = logsumexp (compute_weights_log_w x ll lp lq) - ln (vlen x).
@@ -128,7 +147,7 @@ Proof. reflexivity. Qed.
 Lemma cw_ess_fn {X} (x : list X) ll lp lq :
   compute_weights_ess x ll lp lq =
   let lw := compute_weights_log_w x ll lp lq in
-  effective_sample_size (map (fun t => t - vmax lw) lw).
+  ess_expr (map (fun t => t - vmax lw) lw).
 Proof. reflexivity. Qed.
 
 Section CW.
@@ -175,13 +194,7 @@ Section CW.
 
   Lemma cw_ess : compute_weights_ess x ll lp lq = ess_of (map exp lw).
   Proof.
-    rewrite cw_ess_fn. fold lw. cbv zeta. unfold effective_sample_size.
-    change (fun t_ : R => Rmult t_ 2) with (fun t : R => t * 2).
-    rewrite ess_expr_spec; [| pose proof lw_ne; destruct lw; simpl; congruence].
-    rewrite map_exp_shift. apply ess_of_scale.
-    - pose proof (exp_pos (- vmax lw)); lra.
-    - assert (0 < vsum (map (fun t => t * t) (map exp lw))); [| lra].
-      apply sum_sq_pos; [pose proof lw_ne; destruct lw; simpl; congruence| apply map_exp_pos].
+    rewrite cw_ess_fn. fold lw. cbv zeta. apply ess_expr_shift. exact lw_ne.
   Qed.
 
   Lemma cw_ess_bounds : 1 <= compute_weights_ess x ll lp lq <= vlen ll.
@@ -219,7 +232,7 @@ Proof.
   rewrite !cw_log_evidence_fn, !cw_ess_fn, !cw_log_w_rows. cbv zeta.
   split; [|split].
   - rewrite (logsumexp_perm _ _ PW). unfold vlen. now rewrite Hlen.
-  - unfold effective_sample_size. rewrite (vmax_perm _ _ PW).
+  - unfold ess_expr. rewrite (vmax_perm _ _ PW).
     assert (P2 : Permutation (map (fun t => t - vmax (row_lw rows')) (row_lw rows))
                              (map (fun t => t - vmax (row_lw rows')) (row_lw rows')))
       by (apply Permutation_map; exact PW).
@@ -380,7 +393,7 @@ Section NoOverflow.
     set (e := Rminus (Rmult (logsumexp lw') 2) (logsumexp (map (fun t_ => Rmult t_ 2) lw'))).
     assert (He : e <= ln (vlen ll)).
     { use (cw_ess_bounds x ll lp lq) Hb. destruct Hb as [_ Hub].
-      rewrite cw_ess_fn in Hub. cbv zeta in Hub. unfold effective_sample_size in Hub.
+      rewrite cw_ess_fn in Hub. cbv zeta in Hub. unfold ess_expr in Hub.
       change (compute_weights_log_w x ll lp lq) with lw in Hub.
       change (map (fun t => t - vmax lw) lw) with lw' in Hub. fold e in Hub.
       rewrite <- (ln_exp e). destruct (Rle_lt_or_eq_dec _ _ Hub) as [Hlt|Heq].
